@@ -390,10 +390,10 @@ def rule_r4(chk):
 
 
 def run(chk):
-    rule_r1(chk)
-    rule_r2(chk)
-    rule_r3(chk)
-    rule_r4(chk)
+    chk.guard(rule_r1, chk)
+    chk.guard(rule_r2, chk)
+    chk.guard(rule_r3, chk)
+    chk.guard(rule_r4, chk)
     chk.assumptions = [
         "exact hitting of targets by the smoother-based first-order method and recovery of shocks are numerical: NOT decided",
         "kalmans.predict/smooth are correct (C03)",
